@@ -112,6 +112,12 @@ func (g *SymbolGraph) RemoveEdge(from, to graphs.SymbolKey, kind *SymbolEdgeKind
 		}
 	}
 
+	// Adjacency (deps/revDeps) is tracked per node pair rather than per edge kind -
+	// it must be retained for as long as any other edge from -> to remains
+	if g.hasEdgeBetween(fromBase, toBase) {
+		return
+	}
+
 	if depsMap, ok := g.deps[fromBase]; ok {
 		delete(depsMap, to)
 		if len(depsMap) == 0 {
@@ -125,6 +131,17 @@ func (g *SymbolGraph) RemoveEdge(from, to graphs.SymbolKey, kind *SymbolEdgeKind
 			delete(g.revDeps, toBase)
 		}
 	}
+}
+
+// hasEdgeBetween returns a boolean indicating whether at least one edge, of any kind, exists between the given base IDs
+func (g *SymbolGraph) hasEdgeBetween(fromBase, toBase string) bool {
+	suffix := "::" + toBase
+	for k := range g.edges[fromBase] {
+		if strings.HasSuffix(k, suffix) {
+			return true
+		}
+	}
+	return false
 }
 
 func (g *SymbolGraph) AddController(request CreateControllerNode) (*SymbolNode, error) {
